@@ -18,6 +18,7 @@ RULE = (
     "accepted iff the endpoint is in the set — immediately after unbind returns it is refused; established connections "
     "still carry messages; unbind of anything else fails with NoSuchBind."
     " Family monitor-gone: the socket's monitor was requested and its receiver dropped (before the first bind, or between two binds): bind still returns the endpoint it added to the set, the endpoint accepts, unbind removes it."
+    " Family unbind-near: unbind of an endpoint that is not bound but RESEMBLES a bound one (the same port on 127.0.0.2 / [::1] / localhost / 0.0.0.0, the same host on the next port, an ipc path plus a suffix), before and after that endpoint's sibling on the same socket was unbound: no-such-bind every time, the bound endpoint keeps accepting, the established connection stays open."
 )
 ASSUMPTIONS = ["the OS does not hand out a listening address twice; connection refusal is immediate on loopback / unix sockets",
                "PARTIAL: OS, scheduler and timing are observed, not modelled; unavailable transports are skipped and recorded"]
@@ -57,6 +58,21 @@ def cases(tier, rng):
                    "unbind 1 ep#1", "binds 1", f"probe ep#1 {peer}"]
             out.append(Case(f"stalled-peer-{tr}-{off}#{n}", "net", ops, ["stalled-peer"]))
             n += 1
+    # unbind of an endpoint that is NOT in the bind set but RESEMBLES one that is (the same port on another host or under
+    # another spelling of the host, the same host on the next port, an ipc path plus a suffix): no-such-bind, and the
+    # endpoint it resembles stays bound and accepting — also right after that endpoint's sibling on the same socket was unbound
+    for tr in trs:
+        for t in ("PULL", "REP"):
+            peer = netgen.PEER[t]
+            for how in (("host2", "v6", "name", "any", "port") if tr == "tcp4" else ("host2", "name", "any", "port") if tr.startswith("tcp") else ("suffix",)):
+                ops = [f"sock 1 {t}", f"bind 1 {tr}", f"bind 1 {tr}", "rawconn 1 ep#0", f"rawhs 1 {peer}", "rawwait 1 hs",
+                       f"unbind 1 near:{how}:ep#0", "binds 1", f"probe ep#0 {peer}", f"probe ep#1 {peer}",
+                       "unbind 1 ep#1", f"unbind 1 near:{how}:ep#1", f"unbind 1 near:{how}:ep#0", "unbind 1 ep#1", "binds 1",
+                       f"probe ep#0 {peer}", f"probe ep#1 {peer}", "rawwait 1 open"]
+                if t == "PULL":
+                    ops += ["rawmsg 1 6869", "recv 1"]
+                out.append(Case(f"unbind-near-{t}-{tr}-{how}#{n}", "net", ops, ["unbind-near"]))
+                n += 1
     # the socket's monitor was requested and its receiver is GONE (the task reading the events ended): bind and unbind
     # are none the worse for it — the result of bind still says whether the endpoint is in the set and accepting
     for tr in trs:
